@@ -141,6 +141,10 @@ def check(case, st):
             labels = gen.labels_for(sch, N)
             M = spell(D, cont, spin) if cont in ("dictperm", "dictrep", "dictdup") else gen.build(cont, D)
             if setmap:
+                # convert once BEFORE the enumeration is changed: nothing may remember the old one
+                for _t in ("to_pubo", "to_puso", "to_qubo", "to_quso"):
+                    if not (_t in ("to_qubo", "to_quso") and deg > 2):
+                        call(getattr(M, _t))
                 gen.permute_mapping(M, setmap)
             tsrc = rp.tt(D, labels, spin)
             before = snap(M)
